@@ -175,11 +175,30 @@ def fresh_real(hint="r"):
     raise RuntimeError("fresh_real has no native meaning; use it only inside opaque effects")
 
 
-fresh_int = fresh_bool = fresh_vec = fresh_seq = fresh_str = fresh_real
+fresh_int = fresh_bool = fresh_vec = fresh_str = fresh_real
+
+
+class _NativeSeq(list):
+    """Native stand-in for an arbitrary pre-existing list: the empty one (the replay then exercises what the call appends)."""
+    def __init__(self, *a):
+        super().__init__(*a)
+        self._initial = list(self)
+
+
+def fresh_seq(hint="seq"):
+    return _NativeSeq()
+
+
+class _NativeOpaque:
+    def __init__(self, label):
+        self._label = label
+
+    def __repr__(self):
+        return f"<opaque {self._label}>"
 
 
 def opaque(label="opaque", **kw):
-    raise RuntimeError("opaque() has no native meaning")
+    return _NativeOpaque(label)
 
 
 def new_object(cls=None, **kw):
@@ -191,10 +210,18 @@ def new_object(cls=None, **kw):
 
 
 def mutated(v):
-    raise RuntimeError("mutated() has no native meaning")
+    if isinstance(v, _NativeSeq):
+        return list(v) != v._initial
+    raise RuntimeError("mutated() has no native meaning for this value")
 
 
-appended = written = mutated
+def appended(v):
+    if isinstance(v, _NativeSeq):
+        return list(v)[len(v._initial):]
+    raise RuntimeError("appended() has no native meaning for this value")
+
+
+written = mutated
 
 
 def is_same(a, b):
